@@ -107,6 +107,14 @@ theorem moveToEnded_apis (p p1 : Pool) (t : Nat) (h : p.moveToEnded t = some p1)
     · simp at h; subst h; rfl
     · simp at h
 
+theorem moveToEnded_reqs (p p1 : Pool) (t : Nat) (h : p.moveToEnded t = some p1) : p1.reqs = p.reqs := by
+  unfold moveToEnded at h
+  split at h
+  · simp at h; subst h; rfl
+  · split at h
+    · simp at h; subst h; rfl
+    · simp at h
+
 @[simp] theorem schedOpt_apis (p : Pool) (o) : (p.schedOpt o).apis = p.apis := by cases o <;> rfl
 
 theorem releasePool_apis (p : Pool) : p.releasePool.apis = p.apis := by
